@@ -61,6 +61,15 @@ def extract(repo, failures):
         d["perEventCatch"] = "QUILL_CATCH_ALL" in pl and "QUILL_CATCH(std::exception" in pl.replace(" ", "").replace("QUILL_CATCH(std::exceptionconst&e)", "QUILL_CATCH(std::exception")
         d["strictMinimum"] = bool(re.search(r"min_ts\s*>\s*te->timestamp", pl))
 
+    # context clean-up: a bounded-queue context with an unreported failure counter is not removed (F24)
+    cc = func_body(bw, r"void\s+_cleanup_invalidated_thread_contexts\s*\(\s*\)\s*\{")
+    if cc is None:
+        failures.append("backend: _cleanup_invalidated_thread_contexts not found")
+        d["cleanupKeepsUnreported"] = False
+    else:
+        mb = re.search(r"if\s*\(\s*thread_context->has_bounded_queue_type\(\)\s*\)\s*\{\s*return([^;]*);", cc)
+        d["cleanupKeepsUnreported"] = bool(mb and re.search(r"&&\s*\(?\s*thread_context->_failure_counter\.load\([^)]*\)\s*==\s*0", mb.group(1)))
+
     # the read loop: stop on ts > ts_now, do-while with capacity and hard-limit exits, commit only if something was read
     rd = func_body(bw, r"size_t\s+_read_and_decode_frontend_queue\s*\([^)]*\)\s*\{")
     pe = func_body(bw, r"bool\s+_populate_transit_event_from_frontend_queue\s*\([^)]*\)\s*\{")
